@@ -190,17 +190,20 @@ def run(ctx):
     staged = None
     with sq.SQLiteFederatedDataBuilder(path) as b:
       half = len(order) // 2
-      b.add_many([(cid, data[cid]) for cid in order[:half]])
+      # add_many takes any Iterable of (id, examples): a list, or a one-shot iterator / generator / map
+      first_stage = [(cid, data[cid]) for cid in order[:half]]
+      b.add_many((first_stage, iter(first_stage), (x for x in first_stage), map(lambda x: x, first_stage))[trial % 4])
       # what add_many has returned is in the file: a reader opened now (between two stages) sees the first stage
       try:
         staged = sorted(sq.SQLiteFederatedData.new(path).client_ids())
       except Exception as ex:  # pylint: disable=broad-except
         staged = f'{type(ex).__name__}: {str(ex)[:80]}'
-      b.add_many([(cid, data[cid]) for cid in order[half:]])
+      second_stage = [(cid, data[cid]) for cid in order[half:]]
+      b.add_many((map(lambda x: x, second_stage), second_stage, iter(second_stage), (x for x in second_stage))[trial % 4])
     fd = sq.SQLiteFederatedData.new(path)
     ok_ids = sorted(fd.client_ids()) == sorted(ids) and fd.num_clients() == len(ids)
     sizes = dict(fd.client_sizes())
-    ok_sizes = all(sizes[c] == len(data[c]['y']) for c in ids)
+    ok_sizes = all(sizes.get(c) == len(data[c]['y']) for c in ids)
     problems = []
     if staged != sorted(order[:len(order) // 2]):
       problems.append(f'a reader opened after the first add_many (builder still open) sees {staged if isinstance(staged, str) else len(staged)} instead of the {len(order) // 2} clients written so far')
